@@ -329,8 +329,9 @@ Definition estimate_out (s : state) (route : list (Z * Z)) (dOutF amtF : Z) : st
 
 (* RouteExactAmountOut's forward loop: hop i swaps for the out-coin (d_{i+1}, ins[i+1]) with maximum ins[i]
    (ins[0] := the caller's maximum), then the taker fee is charged ON TOP of what the pool took; the value
-   returned is the first hop's pool input plus its taker fee. *)
-Fixpoint route_out_loop (s : state) (sender : acct) (route : list (Z * Z)) (ins : list Z) (dOutF amtF : Z)
+   returned is the first hop's pool input plus its taker fee, and (since the repair 8abdc71882 of finding C05-F1)
+   that sum is checked against the caller's maximum on the first hop. *)
+Fixpoint route_out_loop (first : bool) (s : state) (sender : acct) (route : list (Z * Z)) (ins : list Z) (dOutF amtF : Z)
   : result (state * Z) :=
   match route, ins with
   | (pid, dIn) :: rest, maxIn :: ins_rest =>
@@ -345,9 +346,10 @@ Fixpoint route_out_loop (s : state) (sender : acct) (route : list (Z * Z)) (ins 
         match charge_taker_fee s1 sender dIn cur dOut false with
         | Err e => Err e
         | Ok (s2, (after, _)) =>
+          if first && (maxIn <? after) then Err ELimit else
           match rest with
           | [] => Ok (s2, after)
-          | _ => match route_out_loop s2 sender rest ins_rest dOutF amtF with
+          | _ => match route_out_loop false s2 sender rest ins_rest dOutF amtF with
                  | Err e => Err e
                  | Ok (s3, _) => Ok (s3, after)
                  end
@@ -367,7 +369,7 @@ Definition route_exact_out (s : state) (sender : acct) (route : list (Z * Z)) (m
     | (s1, Ok ins) =>
       match ins with
       | [] => Ok (s1, 0)                                       (* unreachable: len(ins) = len(route) *)
-      | _ :: t => route_out_loop s1 sender route (maxIn :: t) dOutF amtF
+      | _ :: t => route_out_loop true s1 sender route (maxIn :: t) dOutF amtF
       end
     end
   end.
@@ -434,3 +436,13 @@ Arguments pools {P}.
 Arguments bal {P}.
 Arguments taker_fee {P}.
 Arguments whitelisted {P}.
+
+(* The two laws of the pool interface (Section hypotheses of C05/Proofs.v; discharged for the concrete pool of
+   C05/Instance.v, measured on the real pools by the correspondence run). *)
+Record PoolLaws (P : PoolIface) : Prop := {
+  law_calc_out_pure : forall p dIn amt dOut sp, fst (calc_out P p dIn amt dOut sp) = p;
+  law_calc_in_pure : forall p dOut amt dIn sp, fst (calc_in P p dOut amt dIn sp) = p;
+  law_calc_out_swap : forall p dIn amt dOut sp p' tin tout,
+    swap_in P p dIn amt dOut sp = Ok (p', (tin, tout)) -> snd (calc_out P p dIn amt dOut sp) = Ok tout;
+  law_calc_in_swap : forall p dOut amt dIn sp p' tin tout,
+    swap_out P p dOut amt dIn sp = Ok (p', (tin, tout)) -> snd (calc_in P p dOut amt dIn sp) = Ok tin }.
